@@ -136,3 +136,28 @@ CHECKS["C06"] = {
          "what": "mutation root fields start in document order, each after the previous field's whole sub-selection (spawned resolvers included) has finished, on every schedule"},
     ],
 }
+
+CHECKS["C13"] = {
+    "prepare": probes.prepare,
+    "assumptions": CHECKS["C06"]["assumptions"] + ["deferred fragments of the families contain only resolver-backed fields that are not also selected outside the fragment"],
+    "harnesses": [
+        {"probe": "core", "harness": "Harness_C13_defer", "setup": "Setup_C13_defer", "reach": ["c13.compared", "c13.incremental"], "workers": 12, "sched_confirm": True,
+         "configs_quick": ["single"], "configs_thorough": ["single", "follow", "wl2"], "map_permute": 3,
+         "quick": {"params": {"budget": 1}, "sample_models": 12, "sample_every": 41}, "thorough": {"params": {"budget": 2}, "sample_models": 30, "sample_every": 301},
+         "what": "6 @defer families (two groups, lists, spreads, shared labels, nested) x symbolic if: variables x outcome deviations x every completion order of groups: arrival-order merge equals the defer-aware reference, delivery rules"},
+    ],
+}
+
+CHECKS["C05"] = {
+    "prepare": probes.prepare,
+    "assumptions": ["context.WithCancel, x/sync/semaphore interpreted from source; resolvers of the probe never block (they 'return promptly')",
+                    "liveness is rendered as: the main task reaches its return (a state where every task is blocked is a deadlock violation), and zzsym.Quiesce() counts tasks still alive"],
+    "harnesses": [
+        {"probe": "core", "harness": "Harness_C05_cancelList", "setup": "Setup_C05_cancelList", "reach": ["c05.list"], "workers": 8, "sched": "first",
+         "configs_quick": ["single", "wl1", "wl2"], "configs_thorough": ["single", "wl1", "wl2", "follow_wl2"],
+         "what": "list fan-out of 3 + 2 elements, context cancelled at 9 points (never, before, inside the k-th resolver call), worker_limit 0/1/2: join terminates, nothing left running"},
+        {"probe": "core", "harness": "Harness_C05_deferOnce", "setup": "Setup_C05_deferOnce", "reach": ["c05.defer"], "workers": 8, "sched": "first",
+         "configs_quick": ["single"], "configs_thorough": ["single", "wl2"],
+         "what": "7 @defer families consumed for one payload then cancelled (single-response transports): no task left blocked"},
+    ],
+}
